@@ -335,7 +335,18 @@ var pathoFlat = []string{"|", ";", "!", "'", "\"", "`", "\\", "0x", "1e", ".", "
 func genTotalCase(rt *rapid.T) (string, map[string]string, string) {
 	g := gen.NewG(rt, gen.Cfg{MaxDepth: 3, MaxOps: 4, JoinDepth: 2, Lets: true, Hostile: true})
 	var src, class string
-	switch k := rapid.IntRange(0, 12).Draw(rt, "class"); {
+	switch k := rapid.IntRange(0, 13).Draw(rt, "class"); {
+	case k == 13:
+		// every built-in with every small number of arguments, in every
+		// expression position
+		name := rapid.SampledFrom(gen.BuiltinNames).Draw(rt, "builtin")
+		nargs := rapid.IntRange(0, 5).Draw(rt, "nargs")
+		args := make([]string, nargs)
+		for i := range args {
+			args[i] = rapid.SampledFrom([]string{"a", "1", "'s'", "a > 1", "b", "count()", "$left.a"}).Draw(rt, "arg")
+		}
+		ctx := rapid.SampledFrom([]string{"T | where %s", "T | extend v = %s", "T | summarize %s by k", "T | summarize n = count() by %s", "T | project p = %s", "T | sort by %s", "T | take %s", "T | top 2 by %s", "T | join (U) on %s", "let v = %s; T | where v"}).Draw(rt, "arityctx")
+		src, class = fmt.Sprintf(ctx, name+"("+strings.Join(args, ", ")+")"), "builtin-arity"
 	case k == 12:
 		// long valid pipelines: many operators, many generated subquery names
 		nops := rapid.IntRange(5, 150).Draw(rt, "nops")
@@ -379,11 +390,21 @@ func genTotalCase(rt *rapid.T) (string, map[string]string, string) {
 		if rapid.IntRange(0, 47).Draw(rt, "small") > 0 {
 			n = min(n, 1+rapid.IntRange(0, 20).Draw(rt, "smalldepth"))
 		}
-		src = prefix + strings.Repeat(u.open, n) + u.mid + strings.Repeat(u.close, n)
+		closers := n
+		switch rapid.IntRange(0, 5).Draw(rt, "unclosed") {
+		case 0:
+			closers = 0 // nothing is ever closed
+		case 1:
+			closers = rapid.IntRange(0, n).Draw(rt, "closers")
+		}
+		src = prefix + strings.Repeat(u.open, n) + u.mid + strings.Repeat(u.close, closers)
 		if strings.HasPrefix(prefix, "let") {
 			src += "; T"
 		}
 		class = "nesting"
+		if closers < n {
+			class = "nesting-unclosed"
+		}
 	default:
 		u := rapid.SampledFrom(pathoFlat).Draw(rt, "flat")
 		n := rapid.IntRange(1, 4000/len(u)).Draw(rt, "reps")
